@@ -124,6 +124,11 @@ func c22Workers(sc *C22Scn) int {
 func c22Run(t *testing.T, sc *C22Scn, k int, o *Outcome, trace bool) (ncalls int, res *simrt.Result) {
 	res = Bubble(t, sc.Sched.config(trace), nil, func() {
 		simrt.Event("scenario %x k=%d", simrt.Hash(hashBytes(mustJSON(sc))), k)
+		if k < 0 && len(sc.Conc) > 0 {
+			simrt.Probe("run_class.concurrent_writers")
+		} else if k < 0 {
+			simrt.Probe("run_class.sequential")
+		}
 		w := NewWorld(o)
 		init := PayloadBytes(999, sc.InitSize)
 		w.FS.MustWriteFile("/f", init, 0o644)
